@@ -1,14 +1,30 @@
 //! Functions for limiting execution time.
 //!
-//! This module contains a global variable, SUIRON_STOP_QUERY,
-//! and therefore has 'unsafe' code.
+//! This module contains a global variable, SUIRON_STOP_QUERY.
+//!
+//! The variable holds the stop flag in its lowest bit and a generation
+//! number in the other bits. Every start_query_timer() / start_query()
+//! and every cancel_timer() begins a new generation, and a timer can only
+//! stop the generation it was started for. ThreadTimer::cancel() can fail
+//! to cancel (it gives up when it cannot get the timer thread's lock at
+//! once); such a timer fires later, and without the generation it would
+//! stop whatever query happens to be running by then.
 
 use std::time::Duration;
+use std::sync::atomic::{AtomicU64, Ordering};
 use thread_timer::ThreadTimer;
 
 use super::logic_var::*;
 
-static mut SUIRON_STOP_QUERY: bool = false;
+static SUIRON_STOP_QUERY: AtomicU64 = AtomicU64::new(0);
+
+/// Clears the stop flag and begins a new generation. Returns the generation.
+fn new_generation() -> u64 {
+    let previous = SUIRON_STOP_QUERY.fetch_update(
+        Ordering::SeqCst, Ordering::SeqCst,
+        |state| Some(((state >> 1) + 1) << 1)).unwrap();
+    (previous >> 1) + 1
+}
 
 /// Create a timer with a timeout in milliseconds.
 ///
@@ -28,10 +44,14 @@ static mut SUIRON_STOP_QUERY: bool = false;
 pub fn start_query_timer(milliseconds: u64) -> ThreadTimer {
     #[cfg(suiron_verif)]
     verif_probe::probe(verif_probe::START_QUERY_TIMER, milliseconds);
-    unsafe { SUIRON_STOP_QUERY = false; }
+    let generation = new_generation();
     let timer = ThreadTimer::new();
-    timer.start(Duration::from_millis(milliseconds),
-                move || { stop_query(); }).unwrap();
+    timer.start(Duration::from_millis(milliseconds), move || {
+        // Stop the query this timer was started for, and no other.
+        let _ = SUIRON_STOP_QUERY.compare_exchange(
+            generation << 1, (generation << 1) | 1,
+            Ordering::SeqCst, Ordering::SeqCst);
+    }).unwrap();
     return timer;
 } // start_query_timer()
 
@@ -57,6 +77,11 @@ pub fn cancel_timer(timer: ThreadTimer) {
         Ok(_) => {},
         Err(_) => {},
     }
+    // The timer's generation ends here. If the timer has not stopped the
+    // query by now, it no longer can (see the note at the top).
+    let _ = SUIRON_STOP_QUERY.fetch_update(
+        Ordering::SeqCst, Ordering::SeqCst,
+        |state| if state & 1 == 0 { Some(state + 2) } else { None });
 } // cancel_timer()
 
 /// Sets the SUIRON_STOP_QUERY flag to false and LOGIC_VAR_ID to 0.
@@ -69,7 +94,7 @@ pub fn cancel_timer(timer: ThreadTimer) {
 pub fn start_query() {
     #[cfg(suiron_verif)]
     verif_probe::probe(verif_probe::START_QUERY, 0);
-    unsafe { SUIRON_STOP_QUERY = false; }
+    new_generation();
     clear_id();
 }
 
@@ -80,7 +105,7 @@ pub fn start_query() {
 pub fn stop_query() {
     #[cfg(suiron_verif)]
     verif_probe::probe(verif_probe::STOP_QUERY, 0);
-    unsafe { SUIRON_STOP_QUERY = true; }
+    SUIRON_STOP_QUERY.fetch_or(1, Ordering::SeqCst);
 }
 
 /// Returns value of SUIRON_STOP_QUERY.
@@ -91,7 +116,7 @@ pub fn stop_query() {
 pub fn query_stopped() -> bool {
     #[cfg(suiron_verif)]
     verif_probe::probe(verif_probe::QUERY_STOPPED, 0);
-    unsafe { SUIRON_STOP_QUERY }
+    SUIRON_STOP_QUERY.load(Ordering::SeqCst) & 1 == 1
 }
 
 /// Verification seam (compiled only with `--cfg suiron_verif`; absent from
@@ -132,7 +157,7 @@ pub mod verif_probe {
     /// Reads the flag without passing through a probe (for the simulator's
     /// own bookkeeping, so that observing does not perturb the schedule).
     pub fn peek_flag() -> bool {
-        unsafe { super::SUIRON_STOP_QUERY }
+        super::SUIRON_STOP_QUERY.load(Ordering::SeqCst) & 1 == 1
     }
 }
 
